@@ -65,6 +65,13 @@ package v2
 //@   after call Tracer).Start assume res0 != nil && res1 != nil
 //@   ensures [expired-hidden] a.EndsAt != 0 && a.EndsAt < now ==> !result
 //@   ensures [hidden-only-for-a-reason] !result ==> (a.EndsAt != 0 && a.EndsAt < now) || (called("alertMatchesFilterLabels") && !ret("alertMatchesFilterLabels")) || called("AlertMarker).Status")
+//@   ensures [label-filter] called("alertMatchesFilterLabels") && !ret("alertMatchesFilterLabels") ==> !result
+//@   ensures [status-filter] called("AlertMarker).Status") ==> result == ((deref(active) || status.State != alert.AlertStateActive) && (deref(silenced) || len(status.SilencedBy) == 0) && (deref(inhibited) || len(status.InhibitedBy) == 0))
+//@   ensures [shown-if-nothing-hides-it] !(a.EndsAt != 0 && a.EndsAt < now) ==> called("alertMatchesFilterLabels") && (ret("alertMatchesFilterLabels") ==> called("AlertMarker).Status"))
+//@   at call AlertMarker).Status assert [status-of-this-alert] arg1 == fpL(a.Labels) && called("dynamic:freevar:setAlertStatus")
+//@   at call dynamic:freevar:setAlertStatus assert [verdict-for-this-alert] arg1 == a.Labels && called("marker.WithContext") && arg0 == ret("marker.WithContext")
+//@   at call marker.WithContext assert [marker-that-is-read-afterwards] arg1 == predict && (deref(m) != nil ? predict == deref(m) : called("marker.NewAlertMarker"))
+//@   at call AlertMarker).Status assert [read-the-same-marker] arg0 == predict
 //@   ensures [status-consulted-only-if-visible] called("AlertMarker).Status") ==> !(a.EndsAt != 0 && a.EndsAt < now) && ret("alertMatchesFilterLabels")
 //@   noeffect alertMatchesFilterLabels setAlertStatus AlertMarker).Status NewAlertMarker WithContext
 
@@ -77,6 +84,11 @@ package v2
 //@   after call PostableSilenceToProto assume (res1 == nil) ==> res0 != nil
 //@   at call Silences).Set assert [well-formed-range] tsT(arg2.StartsAt) < tsT(arg2.EndsAt)
 //@   at call Silences).Set assert [not-ending-in-the-past] tsT(arg2.EndsAt) >= ret("time.Now")
+//@   at call Silences).Set assert [the-converted-silence] arg2 == ret("PostableSilenceToProto") && ret1("PostableSilenceToProto") == nil
+//@   ensures [ok-only-after-a-successful-set] called("NewPostSilencesOK") ==> called("Silences).Set") && ret("Silences).Set") == nil
+//@   ensures [set-error-is-reported] called("Silences).Set") && ret("Silences).Set") != nil ==> !called("NewPostSilencesOK") && (called("NewPostSilencesNotFound") || called("NewPostSilencesBadRequest"))
+//@   ensures [unknown-id-is-404] called("NewPostSilencesNotFound") ==> called("errors.Is") && ret("errors.Is")
+//@   ensures [accepted-silence-is-set] ret1("PostableSilenceToProto") == nil && !called("NewPostSilencesBadRequest") ==> called("Silences).Set")
 //@   noeffect requestLogger PostableSilenceToProto Silences).Set WithEventRecording
 
 // ---- C16: the API's label filter re-implements the missing-label cases instead of calling Matchers.Matches.
